@@ -82,7 +82,7 @@ def skeleton_kernel_units(tier, seed):
     return gen.kernel_units({(u['args']['n'], u['args']['m']) for u in sk if max(u['args']['n'], u['args']['m']) <= 12})
 
 
-def skeleton_units(tier, seed, extra=None, wide=True):
+def skeleton_units(tier, seed, extra=None, wide=True, more_specs=()):
     """concrete structured tables wider than a machine word (or with more than 8 rows), k cells symbolic"""
     if tier == 'quick':
         specs = [(9, 3, 'interval', 4), (12, 2, 'nominal', 3), (66, 3, 'straddle', 3), (3, 66, 'random', 3),
@@ -97,6 +97,7 @@ def skeleton_units(tier, seed, extra=None, wide=True):
                  (4, 18, 'fullempty', 3),
                  (66, 2, 'chain', 6), (66, 2, 'nominal', 6), (2, 66, 'nominal', 6), (2, 66, 'chain', 6),
                  (70, 3, 'interval', 6), (3, 70, 'random', 5), (130, 2, 'dup', 5), (2, 130, 'interval', 5)]
+    specs = list(specs) + list(more_specs)
     us = []
     for n, m, kind, k in specs:
         if not wide and max(n, m) > 16:
@@ -137,11 +138,11 @@ def inductive_unit_for(pid):
     return unit_inductive
 
 
-def lattice_level_units(tier, seed, tables=None, extra=None, split_from=8, wide=True):
+def lattice_level_units(tier, seed, tables=None, extra=None, split_from=8, wide=True, more_specs=()):
     """kernel == contract for every small shape used, inductive kernel step for the wide widths, per-table units for
     all small tables and for the wide skeletons"""
     t = tables or (QUICK_TABLES if tier == 'quick' else THOROUGH_TABLES)
-    sk = skeleton_units(tier, seed, extra=extra, wide=wide)
+    sk = skeleton_units(tier, seed, extra=extra, wide=wide, more_specs=more_specs)
     small = {(u['args']['n'], u['args']['m']) for u in sk if max(u['args']['n'], u['args']['m']) <= 12}
     us = gen.kernel_units(set(t) | small) + inductive_units(tier) + table_units(t, split_from=split_from, extra=extra) + sk
     return us
